@@ -37,6 +37,11 @@ FAILING = {'none': None, 'h503': 14, 'tonly7': 7, 'trailers5': 5, 'trailers0': N
            'trailers13': 13, 'tonly16': 16}
 
 
+GOAWAY_CODES = [0, 1, 2, 11]            # NO_ERROR, PROTOCOL_ERROR, INTERNAL_ERROR, ENHANCE_YOUR_CALM
+GOAWAY_LAST = ['zero', 'highest', 'lower', 'max']
+RST_CODES = [0, 1, 2, 5, 7, 8, 11]      # NO_ERROR ... STREAM_CLOSED, REFUSED_STREAM, CANCEL, ENHANCE_YOUR_CALM
+
+
 # ---- the cells ------------------------------------------------------------------------------------------
 
 def base_cell(op, reason, event, order, deadline):
@@ -78,6 +83,21 @@ def extra_cells(tier):
                         c = base_cell(op, r, e, o, d)
                         c['variant'] = v
                         out.append(c)
+    # GOAWAY and RST_STREAM as CLASSES of frames: every operation at its natural blocking point x both orders
+    natural = [('sr', 'paused'), ('sm', 'window'), ('en', 'paused'), ('ri', 'silent'), ('rm', 'silent'),
+               ('rt', 'silent'), ('ca', 'paused'), ('ax', 'silent')]
+    for op, r in natural:
+        for o in U.ORDERS:
+            for code in GOAWAY_CODES:
+                for last in GOAWAY_LAST:
+                    for data in '01':
+                        c = base_cell(op, r, 'goaway', o, False)
+                        c['goaway'] = '%d/%s/%s' % (code, last, data)
+                        out.append(c)
+            for code in RST_CODES:
+                c = base_cell(op, r, 'rst', o, False)
+                c['rst_code'] = code
+                out.append(c)
     # the call that holds the only stream slot is itself blocked in an operation (it is terminated, exits
     # and releases the slot): judged by the oracle only, the model does not follow the retry loop
     for op, v in (('sr', 'base'), ('sm', 'implicit')):
@@ -172,10 +192,12 @@ def check_cells(ctx, res, cells, compare_model=True):
         if obs['setup'] == 'ok':
             res.count('op:%s' % c['op'])
             res.count('event:%s' % c['event'])
+            if c.get('goaway') and c['event'] == 'goaway':
+                res.count('goaway:%s' % c['goaway'])
             res.count('order:%s' % c['order'])
             res.count('blocked_on:%s' % obs.get('blocked'))
             res.count('outcome:%s/%s' % (obs['op'].split(':')[0], obs['ctx'].split(':')[0]))
-            res.signatures.add((c['op'], c['reason'], c['event'], c.get('violation'), c['order'], c['deadline'], c['status'],
+            res.signatures.add((c['op'], c['reason'], c['event'], c.get('violation'), c.get('goaway'), c.get('rst_code'), c['order'], c['deadline'], c['status'],
                                 c['variant'], c['holder'], obs.get('blocked'), obs['op'], obs['ctx']))
             if obs.get('unhandled'):
                 res.count('loop-exception-handler-calls', obs['unhandled'])
@@ -269,7 +291,9 @@ def gen_multi(rng):
     ops = sorted(set(ops), key=ops.index)
     after = [rng.choice(['sm', 'en', 'ri', 'rm', 'rt', 'ca']) for _ in range(rng.randint(0, 3))]
     return {'ops': ops, 'after': after, 'paused': paused, 'window': window, 'headers': headers,
-            'event': rng.choice(U.EVENTS), 'deadline': rng.random() < 0.3}
+            'event': rng.choice(U.EVENTS), 'deadline': rng.random() < 0.3,
+            'goaway': '%d/%s/%s' % (rng.choice(GOAWAY_CODES), rng.choice(GOAWAY_LAST), rng.choice('01')),
+            'rst_code': rng.choice(RST_CODES)}
 
 
 def run(ctx):
@@ -284,7 +308,9 @@ def run(ctx):
                 'that operation; no-stream-for-rst / rst-infeasible: no stream the peer could reset; call-unaffected: '
                 'send_request after the event opens a new connection); plus the same with a status already arrived '
                 '(503, trailers-only 7, trailers 5, trailers 0), send_message opening the stream itself, initial '
-                'metadata already received, the slot holder itself blocked; plus PRNG groups of concurrent '
+                'metadata already received, the slot holder itself blocked; GOAWAY as a class (error code 0/1/2/11 x '
+                'last_stream_id 0 / highest seen / below the in-flight stream / 2**31-1 x debug data) and RST_STREAM '
+                'with 7 error codes, for every operation at its natural blocking point in both orders; plus PRNG groups of concurrent '
                 'operations of one call, each its own task, plus operations started after the event (per-task outcome '
                 'classes compared with Model/Termination.predict_multi).  distinct = distinct (cell, where blocked, op outcome, call '
                 'outcome)')
